@@ -1,12 +1,274 @@
-(* Property C12 — every engine returns the trajectory it actually ran.  (work in progress) *)
+(* Property C12 — every engine returns the trajectory it actually ran.
+   Models: model/PollM.v (polling / pairing loops of the engine classes, stop rule),
+   model/EngineM.v (shared contract, stop rule before the repair of L11).  Proofs: proofs/PollP.v.
+   Every statement is unbounded: any order function, interfaces, length limit, trajectory,
+   arrival schedule and exit code.  [fx] = stop rule (true = /repo now), [rv] = reverse. *)
 From Coq Require Import ZArith List Bool Lia.
 Import ListNotations.
 From Inf Require Import model.PathM model.EngineM model.PollM proofs.PollP.
 Open Scope Z_scope.
 
-Theorem C12_lammps_prefix_until_stop : forall ord left right rv traj code p0 reads,
+(* ---------------------------------------------------------------- common contract *)
+(* EngineBase.propagate from an empty path: the path is the given point followed by the
+   produced frames up to and including the first one that is outside the interfaces or is the
+   maxlen-th; the success flag is succ_of (fx = true: "that frame is outside") *)
+Theorem C12_contract_prefix_until_stop : forall fx left right M t0 init stream,
+  (0 < M)%nat ->
+  erase_pr (propagate_x fx (empty_path M t0) init stream left right) =
+  match first_fire left right M 0 (init :: stream) with
+  | Some (k, f) => SStop (mkP (firstn (S k) (init :: stream)) M t0) (succ_of fx left right M k f)
+  | None => SMore (mkP (init :: stream) M t0)
+  end.
+Proof. exact propagate_contract. Qed.
+Print Assumptions C12_contract_prefix_until_stop.
+
+(* first_fire is the FIRST index on which the rule fires *)
+Theorem C12_contract_first_stop : forall left right fs M k0 k f,
+  first_fire left right M k0 fs = Some (k, f) ->
+  (k0 <= k)%nat /\ nth_error fs (k - k0) = Some f /\ fires left right M k f = true /\
+  (forall j g, (j < k - k0)%nat -> nth_error fs j = Some g -> fires left right M (k0 + j) g = false).
+Proof. exact first_fire_spec. Qed.
+Print Assumptions C12_contract_first_stop.
+
+(* the length limit: a stream offering M frames always stops *)
+Theorem C12_contract_stops_by_maxlen : forall left right fs M k0,
+  (k0 < M)%nat -> (M - k0 <= length fs)%nat -> first_fire left right M k0 fs <> None.
+Proof. exact first_fire_long. Qed.
+Print Assumptions C12_contract_stops_by_maxlen.
+
+Theorem C12_contract_first_frame : forall fx left right M t0 init stream,
+  (0 < M)%nat ->
+  match erase_pr (propagate_x fx (empty_path M t0) init stream left right) with
+  | SStop p _ | SMore p => exists r, pts p = init :: r
+  | SErr => False
+  end.
+Proof. exact propagate_first_frame. Qed.
+Print Assumptions C12_contract_first_frame.
+
+(* current rule: stops at the first frame outside or at the limit; success iff outside *)
+Theorem C12_contract_success_iff_crossing : forall left right M t0 init stream p s,
+  (0 < M)%nat ->
+  erase_pr (propagate_x true (empty_path M t0) init stream left right) = SStop p s ->
+  exists k f, nth_error (init :: stream) k = Some f /\ pts p = firstn (S k) (init :: stream) /\
+    (forall j g, (j < k)%nat -> nth_error (init :: stream) j = Some g ->
+                 outside left right g = false /\ S j <> M) /\
+    (outside left right f = true \/ S k = M) /\
+    s = outside left right f.
+Proof. exact propagate_success_iff_crossing. Qed.
+Print Assumptions C12_contract_success_iff_crossing.
+
+(* the rule before the repair of L11 is the shared EngineM.propagate *)
+Theorem C12_contract_old_rule_is_EngineM : forall p init stream l r,
+  propagate_x false p init stream l r = propagate p init stream l r.
+Proof. exact propagate_old_rule_is_EngineM. Qed.
+Print Assumptions C12_contract_old_rule_is_EngineM.
+
+Example C12_contract_example :
+  erase_pr (propagate_x true (empty_path 5 0) (mkF 2 0 false 0) [mkF 3 1 false 1; mkF 7 2 false 2; mkF 1 3 false 3] 0 5)
+  = SStop (mkP [mkF 2 0 false 0; mkF 3 1 false 1; mkF 7 2 false 2] 5 0) true.
+Proof. vm_compute. reflexivity. Qed.
+
+(* ---------------------------------------------------------------- LAMMPS *)
+(* any arrival schedule: the outcome is the stop rule over the own-data frames (frame k:
+   positions, velocity direction and BOX of frame k, config index k) of the visible prefix *)
+Theorem C12_lammps_prefix_until_stop : forall fx ord left right rv traj code p0 reads,
   Forall (fun cb => (fst cb <= length traj)%nat) reads ->
-  same_outcome code (lammps_run ord left right rv traj code true p0 false reads)
-               (run_frames left right p0 (own_stream ord rv (firstn (vmax reads) traj))).
+  same_outcome code (lammps_run fx ord left right rv traj code true p0 false reads)
+               (run_frames fx left right p0 (own_stream ord rv (firstn (vmax reads) traj))).
 Proof. exact lammps_fixed_any_schedule. Qed.
 Print Assumptions C12_lammps_prefix_until_stop.
+
+Theorem C12_lammps_schedule_independent : forall fx ord left right rv traj code p0 reads,
+  Forall (fun cb => (fst cb <= length traj)%nat) reads -> vmax reads = length traj ->
+  same_outcome code (lammps_run fx ord left right rv traj code true p0 false reads)
+               (run_frames fx left right p0 (own_stream ord rv traj)).
+Proof. exact lammps_schedule_independent. Qed.
+Print Assumptions C12_lammps_schedule_independent.
+
+Theorem C12_lammps_returns_prefix : forall fx ord left right rv traj code p0 dead reads p s ps,
+  Forall (fun cb => (fst cb <= length traj)%nat) reads ->
+  lammps_run fx ord left right rv traj code true p0 dead reads = Ret p s ps ->
+  run_frames fx left right p0 (own_stream ord rv traj) = SStop p s.
+Proof. exact lammps_returns_prefix. Qed.
+Print Assumptions C12_lammps_returns_prefix.
+
+(* a non-zero exit never gives a normal return without a stop (both pairings) *)
+Theorem C12_lammps_failure_raises : forall fx ord left right rv traj code fixL2 p0 dead reads,
+  code <> 0 ->
+  match lammps_run fx ord left right rv traj code fixL2 p0 dead reads with
+  | Trunc _ _ => False
+  | _ => True
+  end.
+Proof. exact lammps_failure_raises. Qed.
+Print Assumptions C12_lammps_failure_raises.
+
+Theorem C12_lammps_dead_before_output_raises : forall fx ord left right rv traj code fixL2 p0 reads,
+  lammps_run fx ord left right rv traj code fixL2 p0 true reads =
+  if code =? 0 then lammps_run fx ord left right rv traj code fixL2 p0 false reads
+  else Raise p0 (PExited code).
+Proof. exact lammps_run_dead. Qed.
+Print Assumptions C12_lammps_dead_before_output_raises.
+
+Theorem C12_lammps_terminated_at_end : forall fx ord left right rv traj code fixL2 p0 dead reads,
+  pstate_of (lammps_run fx ord left right rv traj code fixL2 p0 dead reads) <> Some PRunning.
+Proof. exact lammps_terminated_at_end. Qed.
+Print Assumptions C12_lammps_terminated_at_end.
+
+(* lead L2: the pairing before the repair (box_trajectory.pop()) *)
+Theorem C12_lammps_pop_last_refuted :
+  exists ord left right traj reads p s ps,
+    lammps_run true ord left right false traj 0 false (empty_path 5 0) false reads = Ret p s ps /\
+    run_frames true left right (empty_path 5 0) (own_stream ord false traj) <> SStop p s /\
+    lammps_run true ord left right false traj 0 true (empty_path 5 0) false reads <> Ret p s ps.
+Proof. exact lammps_pop_last_refuted. Qed.
+Print Assumptions C12_lammps_pop_last_refuted.
+
+Theorem C12_lammps_pop_last_harmless_const_box : forall fx ord left right rv traj code b p0 dead reads,
+  Forall (fun c => cbox c = b) traj ->
+  lammps_run fx ord left right rv traj code false p0 dead reads =
+  lammps_run fx ord left right rv traj code true p0 dead reads.
+Proof. exact lammps_original_const_box. Qed.
+Print Assumptions C12_lammps_pop_last_harmless_const_box.
+
+Example C12_lammps_example :
+  let traj := [mkC 0 1 10; mkC 1 2 20; mkC 2 3 30; mkC 3 4 40] in
+  let reads := [(0%nat, true); (2%nat, true); (3%nat, true); (4%nat, false)] in
+  Forall (fun cb => (fst cb <= length traj)%nat) reads /\ vmax reads = length traj /\
+  lammps_run true (fun p v b => p + v + b) (-5) 30 false traj 0 true (empty_path 9 0) false reads
+  = Ret (mkP [mkF 11 0 false 0; mkF 23 1 false 1; mkF 35 2 false 2] 9 0) true PKilled.
+Proof. cbn zeta. split; [repeat constructor|]. split; vm_compute; reflexivity. Qed.
+
+(* ---------------------------------------------------------------- CP2K *)
+(* two files, two readers: frame k = (position k, velocity k, the initial box); the frames
+   processed are those for which both were ever visible *)
+Theorem C12_cp2k_prefix_until_stop : forall fx ord left right rv traj code box0 p0 reads,
+  reads_ok traj reads ->
+  same_outcome code (cp2k_run fx ord left right rv traj code box0 p0 false reads)
+    (run_frames fx left right p0
+       (own_stream ord rv (map (fixbox box0) (firstn (Nat.min (pmax reads) (qmax reads)) traj)))).
+Proof. exact cp2k_any_schedule. Qed.
+Print Assumptions C12_cp2k_prefix_until_stop.
+
+Theorem C12_cp2k_returns_prefix : forall fx ord left right rv traj code box0 p0 dead reads p s ps,
+  reads_ok traj reads ->
+  cp2k_run fx ord left right rv traj code box0 p0 dead reads = Ret p s ps ->
+  run_frames fx left right p0 (own_stream ord rv (map (fixbox box0) traj)) = SStop p s.
+Proof. exact cp2k_returns_prefix. Qed.
+Print Assumptions C12_cp2k_returns_prefix.
+
+Theorem C12_cp2k_failure_raises : forall fx ord left right rv traj code box0 p0 dead reads,
+  code <> 0 ->
+  match cp2k_run fx ord left right rv traj code box0 p0 dead reads with
+  | Trunc _ _ => False
+  | _ => True
+  end.
+Proof. exact cp2k_failure_raises. Qed.
+Print Assumptions C12_cp2k_failure_raises.
+
+Theorem C12_cp2k_terminated_at_end : forall fx ord left right rv traj code box0 p0 dead reads,
+  pstate_of (cp2k_run fx ord left right rv traj code box0 p0 dead reads) <> Some PRunning.
+Proof. exact cp2k_terminated_at_end. Qed.
+Print Assumptions C12_cp2k_terminated_at_end.
+
+Example C12_cp2k_example :
+  let traj := [mkC 0 1 7; mkC 1 2 7; mkC 2 3 7; mkC 3 4 7] in
+  let reads := [(1%nat, 0%nat, true); (3%nat, 1%nat, true); (3%nat, 4%nat, true); (4%nat, 4%nat, false)] in
+  reads_ok traj reads /\
+  cp2k_run true (fun p v b => 10 * p + v + b) (-5) 25 true traj 0 7 (empty_path 9 0) false reads
+  = Ret (mkP [mkF 6 0 true 0; mkF 15 1 true 1; mkF 24 2 true 2; mkF 33 3 true 3] 9 0) true (PExited 0).
+Proof. cbn zeta. split; [repeat constructor|]. vm_compute. reflexivity. Qed.
+
+(* ---------------------------------------------------------------- GROMACS *)
+(* the TRR polling state machine, for ANY sequence of observed file sizes: whatever it returns
+   is the stop rule over the frames in file order, each consumed exactly once (gres_ok);
+   runs that wait forever for the data block of a dead program (Hang) are outside the statement *)
+Theorem C12_gromacs_any_schedule : forall fx ord left right rv traj code fixL3 hsz dsz head0 final_size p0 dead eps,
+  gres_ok fx ord left right rv code fixL3 p0 0 traj
+    (gromacs_run fx ord left right rv traj code fixL3 hsz dsz head0 final_size p0 dead eps).
+Proof. exact gromacs_any_schedule. Qed.
+Print Assumptions C12_gromacs_any_schedule.
+
+(* own data: repaired double negation (fixL3), or forward direction, or a velocity-direction
+   independent order parameter *)
+Theorem C12_gromacs_returns_prefix : forall fx ord left right rv traj code fixL3 hsz dsz head0 final_size p0 dead eps p s ps,
+  gmx_own_cond ord rv fixL3 ->
+  gromacs_run fx ord left right rv traj code fixL3 hsz dsz head0 final_size p0 dead eps = Ret p s ps ->
+  run_frames fx left right p0 (own_stream ord rv traj) = SStop p s.
+Proof. exact gromacs_returns_prefix. Qed.
+Print Assumptions C12_gromacs_returns_prefix.
+
+Theorem C12_gromacs_failure_raises : forall fx ord left right rv traj code fixL3 hsz dsz head0 final_size p0 dead eps,
+  code <> 0 ->
+  match gromacs_run fx ord left right rv traj code fixL3 hsz dsz head0 final_size p0 dead eps with
+  | Trunc _ _ => False
+  | _ => True
+  end.
+Proof. exact gromacs_failure_raises. Qed.
+Print Assumptions C12_gromacs_failure_raises.
+
+(* lead L3: reverse = True with a velocity-dependent order parameter, code as it is *)
+Theorem C12_gromacs_double_negation_refuted :
+  exists ord left right traj eps p s ps,
+    gromacs_run true ord left right true traj 0 false 10 20 10 60 (empty_path 2 0) false eps = Ret p s ps /\
+    run_frames true left right (empty_path 2 0) (own_stream ord true traj) <> SStop p s /\
+    gromacs_run true ord left right true traj 0 true 10 20 10 60 (empty_path 2 0) false eps <> Ret p s ps.
+Proof. exact gromacs_double_negation_refuted. Qed.
+Print Assumptions C12_gromacs_double_negation_refuted.
+
+Example C12_gromacs_example :
+  gromacs_run true (fun p v b => p + v + b) (-5) 30 false
+    [mkC 0 1 10; mkC 1 2 20; mkC 2 3 30; mkC 3 4 40] 0 false 10 20 25 120 (empty_path 9 0) false
+    [0; 12; 30; 40; 95]%nat
+  = Ret (mkP [mkF 11 0 false 0; mkF 23 1 false 1; mkF 35 2 false 2] 9 0) true PKilled.
+Proof. vm_compute. reflexivity. Qed.
+
+(* ---------------------------------------------------------------- in-process engines *)
+(* ASE / TurtleMD / plug-in: the subcycle loop is the stop rule over every s-th state *)
+Theorem C12_inproc_prefix_until_stop : forall fx ord left right rv s fine i p step,
+  inproc_loop fx ord left right rv s fine i p step =
+  match run_frames fx left right p (own_stream_from ord rv step (every_from s i fine)) with
+  | SStop p1 b => Ret p1 b PNone
+  | SMore p1 => Trunc p1 PNone
+  | SErr => IdxError
+  end.
+Proof. exact inproc_loop_spec. Qed.
+Print Assumptions C12_inproc_prefix_until_stop.
+
+Theorem C12_inproc_stops : forall fx ord left right rv s fine M t0,
+  (0 < M)%nat -> (M <= length (every_from s 0 fine))%nat ->
+  exists p b, inproc_loop fx ord left right rv s fine 0 (empty_path M t0) 0 = Ret p b PNone.
+Proof. exact inproc_stops. Qed.
+Print Assumptions C12_inproc_stops.
+
+Example C12_inproc_example :
+  inproc_loop true (fun p v b => p) 0 100 false 2
+    [mkC 1 1 0; mkC 2 1 0; mkC 3 1 0; mkC 4 1 0; mkC 5 1 0; mkC 6 1 0] 0 (empty_path 3 0) 0
+  = Ret (mkP [mkF 1 0 false 0; mkF 3 1 false 1; mkF 5 2 false 2] 3 0) false PNone.
+Proof. vm_compute. reflexivity. Qed.
+
+(* ---------------------------------------------------------------- time reversal *)
+(* for time-reversible dynamics T (T . reverse . T = reverse) the program started from the
+   velocity-reversed frame j retraces frames j, j-1, ..., 0, and the order parameters the
+   backward propagation stores are those of the forward frames (velocity direction included) *)
+Theorem C12_backward_retraces_configs : forall T : conf -> conf,
+  (forall c, T (crev (T c)) = crev c) ->
+  forall j c0, orbit T (S j) (crev (iter j T c0)) = map crev (rev (orbit T (S j) c0)).
+Proof. exact orbit_reversed. Qed.
+Print Assumptions C12_backward_retraces_configs.
+
+Theorem C12_backward_retraces_orders : forall (T : conf -> conf) ord j c0,
+  (forall c, T (crev (T c)) = crev c) ->
+  map ford (own_stream ord true (orbit T (S j) (crev (iter j T c0)))) =
+  rev (map ford (own_stream ord false (orbit T (S j) c0))).
+Proof. exact backward_retraces. Qed.
+Print Assumptions C12_backward_retraces_orders.
+
+(* free flight is such a T *)
+Example C12_retrace_example :
+  let T := fun c => mkC (cpos c + cvel c) (cvel c) (cbox c) in
+  (forall c, T (crev (T c)) = crev c) /\
+  orbit T 3 (crev (iter 2 T (mkC 5 2 0))) = [mkC 9 (-2) 0; mkC 7 (-2) 0; mkC 5 (-2) 0].
+Proof.
+  cbn zeta. split; [|vm_compute; reflexivity].
+  intros [p v b]. unfold crev. cbn. f_equal. lia.
+Qed.
